@@ -212,3 +212,19 @@ var NestFamilies = []NestFamily{
 		return rep("WITH a AS (", n)
 	}},
 }
+
+// SystematicEdits yields, for every token position of text, the text with that token deleted and the text with
+// a ',' inserted before it (and after the last token). Deterministic; trivia is kept.
+func SystematicEdits(text string, f func(mutant string)) {
+	lx := reflex.Lex(text)
+	if lx.Status != reflex.Accept {
+		return
+	}
+	for _, t := range lx.Toks {
+		f(text[:t.Pos] + text[t.End:])
+		f(text[:t.Pos] + ", " + text[t.Pos:])
+	}
+	if n := len(lx.Toks); n > 0 {
+		f(text[:lx.Toks[n-1].End] + " ," + text[lx.Toks[n-1].End:])
+	}
+}
